@@ -69,6 +69,25 @@ ENSURES(G_cn_calls == OLD(G_cn_calls) + 1 && G_cn_ctr == OLD(ctr[verif_gk < 16 ?
 	&& G_cn_out == (size_t)out && G_cn_key == (size_t)key && G_seq == OLD(G_seq) + 1 && G_cn_seq == G_seq)
 ;
 
+/* counter increment of CCM: the low n bytes (n = q = 2..8) as one big-endian integer, +1 modulo 2^(8n); the flags/nonce
+   bytes in front of it never change */
+#ifdef VERIF_CBMC
+#define CCM_BE64(p, o) (((uint64_t)(p)[(o)+0] << 56) | ((uint64_t)(p)[(o)+1] << 48) | ((uint64_t)(p)[(o)+2] << 40) | ((uint64_t)(p)[(o)+3] << 32) | \
+	((uint64_t)(p)[(o)+4] << 24) | ((uint64_t)(p)[(o)+5] << 16) | ((uint64_t)(p)[(o)+6] << 8) | (uint64_t)(p)[(o)+7])
+#define CCM_OLDBE64(p, o) (((uint64_t)OLD((p)[(o)+0]) << 56) | ((uint64_t)OLD((p)[(o)+1]) << 48) | ((uint64_t)OLD((p)[(o)+2]) << 40) | ((uint64_t)OLD((p)[(o)+3]) << 32) | \
+	((uint64_t)OLD((p)[(o)+4]) << 24) | ((uint64_t)OLD((p)[(o)+5]) << 16) | ((uint64_t)OLD((p)[(o)+6]) << 8) | (uint64_t)OLD((p)[(o)+7]))
+#define CCM_MASK(n) ((n) >= 8 ? ~(uint64_t)0 : (((uint64_t)1 << (8 * (n))) - 1))
+#endif
+#ifdef CONTRACT_CCM_CTR_INCR
+static void ctr_n_incr(uint8_t a[16], size_t n)
+REQUIRES(RW_OK(a, 16) && n >= 2 && n <= 8)
+ASSIGNS(OBJ_UPTO(a, 16))
+ENSURES(CCM_BE64(a, 0) == CCM_OLDBE64(a, 0))
+ENSURES((CCM_BE64(a, 8) & ~CCM_MASK(n)) == (CCM_OLDBE64(a, 8) & ~CCM_MASK(n)))
+ENSURES((CCM_BE64(a, 8) & CCM_MASK(n)) == ((CCM_OLDBE64(a, 8) + 1) & CCM_MASK(n)))
+;
+#endif
+
 #ifdef VERIF_CBMC
 #define CCM_COMMON_POST(msg) \
 	(G_mu_ctx != 0 && G_mu_fed == CCM_STREAM_LEN(aadlen, inlen) \
